@@ -17,6 +17,9 @@ def case_list(quick, max_chain):
         for sk, kk in (("call", "call"), ("method", "method")):
             for placement in ("top", "func"):
                 cases.append((chain, sk, kk, placement, "two"))
+        for sk, kk in (("helper-early", "call"), ("helper-twice", "call"), ("call", "kwcallee"), ("helper-twice", "kwcallee")):
+            for placement in ("top", "func"):
+                cases.append((chain, sk, kk, placement, "one"))
     return cases
 
 
